@@ -131,46 +131,79 @@ example : Data.benv.py.strip "\n  ".toList = [] := by decide
 example : Data.primOf (parseRoot Data.benv Data.ctx {} "Plain".toList Data.plainDocPretty) "y" = some (.bool true) := by
   decide
 
-/-! ## 3. surrounding white space of non-string values -/
+/-! ## 3. surrounding white space of non-string values
 
-/-- **value_ws_invariant**: for every environment, padding the lexical value with white
-space (`str.isspace` characters of that environment) does not change what
-`converter.deserialize` returns when every candidate type is int, bool or QName
-(`strips`: every type except `str`/`object`). -/
+Two notions of white space are involved: `str.strip()` (bool, QName converters; `str.split()` for
+token lists) removes `str.isspace` characters (`allSpace`), `int(str)` removes a smaller set
+(`allBlank`: not the ASCII separators FS GS RS US, 0x1c–0x1f).  XML white space (#x20 #x9 #xD #xA —
+the property's own notion) is blank in both senses in every environment (`xml_ws_blank`). -/
+
+/-- **value_ws_invariant**: for every environment, padding the lexical value with characters that
+`int()` skips (`allBlank`; these are also `str.isspace`) does not change what
+`converter.deserialize` returns when every candidate type is int, bool or QName (`strips`). -/
 theorem value_ws_invariant (e : BEnv) (l s r : Str) (ts : List TypeRef) (n : NsMap) (ht : ts.all strips = true)
-    (hl : allSpace e.py l = true) (hr : allSpace e.py r = true) :
+    (hl : allBlank e.py l = true) (hr : allBlank e.py r = true) :
     deserialize e (l ++ s ++ r) ts n = deserialize e s ts n :=
   deserialize_pad e l s r ts n ht hl hr
+
+/-- **value_ws_invariant_isspace**: for bool and QName (`stripsSpace`: not int) any `str.isspace`
+padding will do. -/
+theorem value_ws_invariant_isspace (e : BEnv) (l s r : Str) (ts : List TypeRef) (n : NsMap)
+    (ht : ts.all stripsSpace = true) (hl : allSpace e.py l = true) (hr : allSpace e.py r = true) :
+    deserialize e (l ++ s ++ r) ts n = deserialize e s ts n :=
+  deserialize_pad_space e l s r ts n ht hl hr
+
+/-- **xml_ws_blank**: strings of XML white space satisfy the padding hypotheses of both theorems,
+for every environment. -/
+theorem xml_ws_blank (e : Env) (s : Str) (h : s.all isXmlWs = true) : allBlank e s = true ∧ allSpace e s = true :=
+  ⟨allBlank_of_xmlWs e s h, allBlank_allSpace e s (allBlank_of_xmlWs e s h)⟩
+
+/-- the statement with `str.isspace` padding for *all* stripping types (as first claimed) -/
+def value_ws_invariant_isspace_all : Prop :=
+  ∀ (e : BEnv) (l s r : Str) (ts : List TypeRef) (n : NsMap), ts.all strips = true →
+    allSpace e.py l = true → allSpace e.py r = true → deserialize e (l ++ s ++ r) ts n = deserialize e s ts n
+
+/-- **value_ws_invariant_isspace_counterexample**: it is false for int: `"\x1c1"` (FS, which
+`str.isspace` accepts) does not convert — `int("\x1c1")` raises ValueError, so
+`converter.deserialize("\x1c1", [int])` raises ConverterError — while `"1"` gives 1; and
+`"\x1ctrue"` for bool does convert.  (Not a violation of C09: FS is not XML white space, it is
+not even an XML 1.0 character.) -/
+theorem value_ws_invariant_isspace_counterexample : ¬ value_ws_invariant_isspace_all := by
+  intro h
+  have := h Data.benv [Char.ofNat 0x1c] ['1'] [] [.prim .int] [] (by decide) (by decide) (by decide)
+  revert this
+  decide
+
+theorem fs_padding_witness :
+    deserialize Data.benv [Char.ofNat 0x1c, '1'] [.prim .int] [] = none ∧
+    deserialize Data.benv ['1'] [.prim .int] [] = some (.int 1) ∧
+    deserialize Data.benv (Char.ofNat 0x1c :: "true".toList) [.prim .bool] [] = some (.bool true) := by
+  decide
 
 /-- the conversion of `s` for `var` succeeds (no ConverterWarning) -/
 def converts (e : BEnv) (var : VarCore) (s : Str) (n : NsMap) : Bool :=
   if var.tokens then ((pySplitWs e.py s).mapM (fun t => deserialize e t var.types n)).isSome
   else (deserialize e s var.types n).isSome
 
-/-- **parseVar_ws_invariant**: `ParserUtils.parse_var` on a padded value: same result for
-a token list of any type and for non-string types, as long as the value converts (on
-failure the raw string, padding included, is kept with a warning — or a ParserError is
-raised, in which case the two agree again). -/
-theorem parseVar_ws_invariant (e : BEnv) (cfg : ParserConfig) (var : VarCore) (l s r : Str) (n : NsMap)
-    (ht : var.tokens = true ∨ var.types.all strips = true)
-    (hc : converts e var s n = true ∨ cfg.failOnConverterWarnings = true)
-    (hl : allSpace e.py l = true) (hr : allSpace e.py r = true) :
-    parseVar e cfg var (some (l ++ s ++ r)) n = parseVar e cfg var (some s) n := by
+/-- `ParserUtils.parse_var` on a padded value, given that the padding is invisible to the splitting
+(`hsplit`, for token lists) or to the conversion (`hconv`, otherwise) -/
+theorem parseVar_pad_of (e : BEnv) (cfg : ParserConfig) (var : VarCore) (s s' : Str) (n : NsMap)
+    (hsplit : var.tokens = true → pySplitWs e.py s' = pySplitWs e.py s)
+    (hconv : var.tokens = false → deserialize e s' var.types n = deserialize e s var.types n)
+    (hc : converts e var s n = true ∨ cfg.failOnConverterWarnings = true) :
+    parseVar e cfg var (some s') n = parseVar e cfg var (some s) n := by
   unfold parseVar
   simp only [Option.getD_none]
   by_cases htok : var.tokens = true
-  · simp only [htok, if_true, pySplitWs_pad e.py l s r hl hr]
+  · simp only [htok, if_true, hsplit htok]
     rcases hc with hc | hc
     · simp only [converts, htok, if_true] at hc
       cases hm : (pySplitWs e.py s).mapM (fun t => deserialize e t var.types n) with
       | none => simp [hm] at hc
       | some vs => rfl
     · simp [hc]
-  · have hs : var.types.all strips = true := by
-      rcases ht with h | h
-      · exact absurd h htok
-      · exact h
-    simp only [htok, deserialize_pad e l s r var.types n hs hl hr]
+  · have htf : var.tokens = false := by simpa using htok
+    simp only [htok, hconv htf]
     rcases hc with hc | hc
     · simp only [converts, htok] at hc
       cases hm : deserialize e s var.types n with
@@ -178,9 +211,44 @@ theorem parseVar_ws_invariant (e : BEnv) (cfg : ParserConfig) (var : VarCore) (l
       | some v => rfl
     · simp [hc]
 
+/-- **parseVar_ws_invariant**: `ParserUtils.parse_var` on a value padded with characters blank for
+`int()` and `str.strip()` (e.g. XML white space): same result for a token list of any type and for
+int/bool/QName types, as long as the value converts (on failure the raw string, padding included, is
+kept with a warning — or a ParserError is raised, in which case the two agree again). -/
+theorem parseVar_ws_invariant (e : BEnv) (cfg : ParserConfig) (var : VarCore) (l s r : Str) (n : NsMap)
+    (ht : var.tokens = true ∨ var.types.all strips = true)
+    (hc : converts e var s n = true ∨ cfg.failOnConverterWarnings = true)
+    (hl : allBlank e.py l = true) (hr : allBlank e.py r = true) :
+    parseVar e cfg var (some (l ++ s ++ r)) n = parseVar e cfg var (some s) n := by
+  apply parseVar_pad_of e cfg var s _ n _ _ hc
+  · intro _
+    exact pySplitWs_pad e.py l s r (allBlank_allSpace _ _ hl) (allBlank_allSpace _ _ hr)
+  · intro htf
+    rcases ht with h | h
+    · rw [htf] at h; cases h
+    · exact deserialize_pad e l s r var.types n h hl hr
+
+/-- **parseVar_ws_invariant_isspace**: with `str.isspace` padding: token lists of any type (the
+tokens themselves carry no padding), and bool/QName types. -/
+theorem parseVar_ws_invariant_isspace (e : BEnv) (cfg : ParserConfig) (var : VarCore) (l s r : Str) (n : NsMap)
+    (ht : var.tokens = true ∨ var.types.all stripsSpace = true)
+    (hc : converts e var s n = true ∨ cfg.failOnConverterWarnings = true)
+    (hl : allSpace e.py l = true) (hr : allSpace e.py r = true) :
+    parseVar e cfg var (some (l ++ s ++ r)) n = parseVar e cfg var (some s) n := by
+  apply parseVar_pad_of e cfg var s _ n _ _ hc
+  · intro _
+    exact pySplitWs_pad e.py l s r hl hr
+  · intro htf
+    rcases ht with h | h
+    · rw [htf] at h; cases h
+    · exact deserialize_pad_space e l s r var.types n h hl hr
+
 -- non-vacuity
-example : allSpace Data.benv.py [' ', '\n', '\t'] = true := by decide
+example : [' ', '\n', '\t', '\r'].all isXmlWs = true := by decide
+example : allBlank Data.benv.py [' ', '\n', '\t'] = true := by decide
+example : allSpace Data.benv.py [Char.ofNat 0x1c, Char.ofNat 0x1f, ' '] = true := by decide
 example : [TypeRef.prim .int, .prim .bool].all strips = true := by decide
+example : [TypeRef.prim .bool, .prim .qname].all stripsSpace = true := by decide
 example : deserialize Data.benv (" \n".toList ++ "42".toList ++ "\t".toList) [.prim .int] [] = some (.int 42) := by decide
 example : converts Data.benv Data.vA.toVarCore "42".toList [] = true := by decide
 
